@@ -21,6 +21,9 @@ def tokOf (i : Nat) (w : String) : Tok :=
     else if w == "RPAREN" then .rparen
     else if w == "LBRACKET" then .lbracket
     else if w == "RBRACKET" then .rbracket
+    else if w == "DOT" then .dot
+    else if w == "COLON" then .colon
+    else if w == "ty" then .ty i
     else .other
 
 def render : E → String
@@ -30,6 +33,12 @@ def render : E → String
   | .bin o l r => "(" ++ render l ++ " " ++ sym o ++ " " ++ render r ++ ")"
   | .group e => "(G " ++ render e ++ ")"
   | .index l i => "(" ++ render l ++ " [ " ++ render i ++ " ])"
+  | .sliceAll l => "(" ++ render l ++ " [ : ])"
+  | .sliceTo l b => "(" ++ render l ++ " [ : " ++ render b ++ " ])"
+  | .sliceFrom l a => "(" ++ render l ++ " [ " ++ render a ++ " : ])"
+  | .slice l a b => "(" ++ render l ++ " [ " ++ render a ++ " : " ++ render b ++ " ])"
+  | .dot l _ => "(" ++ render l ++ " . a)"
+  | .assert l _ => "(" ++ render l ++ " .( ty ))"
 
 def handle (ws : List String) : String :=
   let ts := (ws.zipIdx).map (fun (w, i) => tokOf i w)
